@@ -43,6 +43,24 @@ def check_z3(axioms, assumptions, goal, timeout_ms, config=None):
     return str(r), dt, model, reason
 
 
+def check_z3_cli(smt2, timeout_s, binary="/usr/bin/z3"):
+    if not os.path.exists(binary):
+        return "unknown", 0.0
+    with tempfile.NamedTemporaryFile("w", suffix=".smt2", delete=False) as f:
+        f.write(smt2)
+        path = f.name
+    t0 = time.time()
+    try:
+        p = subprocess.run([binary, f"-T:{int(timeout_s)}", path], capture_output=True, text=True, timeout=timeout_s + 5)
+        out = (p.stdout or "").strip().splitlines()
+        res = out[0] if out else "unknown"
+        return (res if res in ("sat", "unsat") else "unknown"), time.time() - t0
+    except subprocess.TimeoutExpired:
+        return "unknown", time.time() - t0
+    finally:
+        os.unlink(path)
+
+
 def check_cvc5(smt2, timeout_s):
     if not os.path.exists(CVC5):
         return "unknown", 0.0, "cvc5 not found"
@@ -64,27 +82,96 @@ def check_cvc5(smt2, timeout_s):
         os.unlink(path)
 
 
+_nl = {}
+
+
+def is_nonlinear(f):
+    k = f.get_id()
+    if k in _nl:
+        return _nl[k]
+    r = False
+    stack, seen = [f], set()
+    while stack:
+        x = stack.pop()
+        if x.get_id() in seen:
+            continue
+        seen.add(x.get_id())
+        if z3.is_app(x):
+            kd = x.decl().kind()
+            if kd == z3.Z3_OP_MUL:
+                if sum(1 for ch in x.children() if not (z3.is_int_value(ch) or z3.is_rational_value(ch))) >= 2:
+                    r = True
+                    break
+            elif kd in (z3.Z3_OP_DIV, z3.Z3_OP_IDIV, z3.Z3_OP_MOD):
+                d = x.children()[1]
+                if not (z3.is_int_value(d) or z3.is_rational_value(d)):
+                    r = True
+                    break
+            stack.extend(x.children())
+        elif z3.is_quantifier(x):
+            stack.append(x.body())
+    _nl[k] = r
+    return r
+
+
+def has_quant(f):
+    stack, seen = [f], set()
+    while stack:
+        x = stack.pop()
+        if x.get_id() in seen:
+            continue
+        seen.add(x.get_id())
+        if z3.is_quantifier(x):
+            return True
+        stack.extend(x.children())
+    return False
+
+
 def discharge(ob, axioms, tier="quick"):
-    """Sets ob.result in {'discharged','refuted','unknown'}; a quantified `sat` from z3 is only trusted as a
-    refutation when the model is complete (z3 returns sat only with a model it checked)."""
+    """Sets ob.result in {'discharged','refuted','unknown'}.
+
+    Portfolio (every step is sound): (A) all assumptions, short budget; (B) the same goal from a *subset* of the
+    assumptions (non-linear ones dropped) - unsat from fewer assumptions is still a proof; (C) quantifier-free
+    subset (lets the non-linear engine work alone); (D) all assumptions, full budget; (E) cvc5 on z3's unknown.
+    Only a `sat` obtained with ALL assumptions counts as a refutation."""
     goal = ob.goal
     budget = QUICK_MS if tier == "quick" else 6 * QUICK_MS
-    r, dt, model, reason = check_z3(axioms, ob.assumptions, goal, budget)
+    short = min(10000, budget)
     ob.backend = "z3"
-    ob.seconds = dt
+    ob.seconds = 0.0
+    strategy = "all"
+    r, model, reason = "unknown", None, ""
+    lin = [a for a in ob.assumptions if not is_nonlinear(a)]
+    if len(lin) < len(ob.assumptions):
+        r2, dt2, _, _ = check_z3(axioms, lin, goal, 2500)
+        ob.seconds += dt2
+        if r2 == "unsat":
+            r, strategy = "unsat", "linear-subset"
     if r == "unknown":
-        # second configuration, then cvc5
-        if True:
-            smt2 = smt2_of(axioms, ob.assumptions, goal)
-            r3, dt3, info = check_cvc5(smt2, budget / 1000.0)
-            ob.seconds += dt3
-            if r3 == "unsat":
-                r = "unsat"
-                ob.backend = "cvc5"
-            elif r3 == "sat":
-                r = "sat-cvc5"
-                ob.backend = "cvc5"
-            reason = reason + " | cvc5: " + info
+        r, dt, model, reason = check_z3(axioms, ob.assumptions, goal, short)
+        ob.seconds += dt
+    if r == "unknown":
+        qf = [a for a in ob.assumptions if not has_quant(a)]
+        if len(qf) < len(ob.assumptions) and not has_quant(goal):
+            r2, dt2, _, _ = check_z3([], qf, goal, 3000)
+            ob.seconds += dt2
+            if r2 == "unsat":
+                r, strategy = "unsat", "quantifier-free-subset"
+    if r == "unknown" and budget > short:
+        r, dt, model, reason = check_z3(axioms, ob.assumptions, goal, budget)
+        ob.seconds += dt
+    if r == "unknown":
+        smt2 = smt2_of(axioms, ob.assumptions, goal)
+        r3, dt3, info = check_cvc5(smt2, budget / 1000.0)
+        ob.seconds += dt3
+        if r3 == "unsat":
+            r = "unsat"
+            ob.backend = "cvc5"
+        elif r3 == "sat":
+            r = "sat-cvc5"
+            ob.backend = "cvc5"
+        reason = reason + " | cvc5: " + info
+    ob.strategy = strategy
     if r == "unsat":
         ob.result = "discharged"
     elif r == "sat":
@@ -98,6 +185,102 @@ def discharge(ob, axioms, tier="quick"):
         ob.result = "unknown"
         ob.reason = reason
     return ob
+
+
+def _work(task):
+    """Runs in a worker process: a fresh z3 context per obligation (verdicts do not depend on what was solved
+    before).  task = (index, [(label, smt2, timeout_ms, accept_sat)], cvc5_timeout_s)"""
+    idx, variants, cvc5_s = task
+    import z3 as z
+    total = 0.0
+    last_reason = ""
+    full_smt2 = None
+    for label, smt2, tmo, accept_sat in variants:
+        if accept_sat:
+            full_smt2 = smt2
+        ctx = z.Context()
+        sol = z.Solver(ctx=ctx)
+        sol.set("timeout", tmo)
+        try:
+            sol.from_string(smt2)
+            t0 = time.time()
+            r = str(sol.check())
+            total += time.time() - t0
+        except z.Z3Exception as e:
+            r = "unknown"
+            last_reason = f"z3 exception: {e}"
+        if r == "unsat":
+            return (idx, "discharged", "z3", label, total, None, "")
+        if r == "sat" and accept_sat:
+            m = sol.model()
+            md = {}
+            for d in m.decls():
+                try:
+                    md[d.name()] = str(m[d])[:400]
+                except Exception:
+                    pass
+            return (idx, "refuted", "z3", label, total, md, "")
+        if r == "unknown":
+            try:
+                last_reason = sol.reason_unknown()
+            except Exception:
+                pass
+    if full_smt2 is not None and cvc5_s > 0:
+        # further members of the portfolio on the full problem: the older z3 binary (different arithmetic / E-matching
+        # heuristics), z3 with other random seeds, then cvc5.  Any `unsat` is a proof; `sat` is only taken from cvc5/z3-old
+        # as "refuted without model".
+        r4, dt4 = check_z3_cli(full_smt2, cvc5_s)
+        total += dt4
+        if r4 == "unsat":
+            return (idx, "discharged", "z3-4.8.12", "all", total, None, "")
+        for seed in (2, 7):
+            ctx = z.Context()
+            sol = z.Solver(ctx=ctx)
+            sol.set("timeout", int(cvc5_s * 500))
+            sol.set("random_seed", seed)
+            try:
+                sol.from_string(full_smt2)
+                t0 = time.time()
+                r = str(sol.check())
+                total += time.time() - t0
+            except z.Z3Exception:
+                r = "unknown"
+            if r == "unsat":
+                return (idx, "discharged", "z3", f"all/seed{seed}", total, None, "")
+        r3, dt3, info = check_cvc5(full_smt2, cvc5_s)
+        total += dt3
+        if r3 == "unsat":
+            return (idx, "discharged", "cvc5", "all", total, None, "")
+        if r3 == "sat":
+            return (idx, "refuted", "cvc5", "all", total, None, "cvc5 reports sat (no model extracted)")
+        last_reason += " | cvc5: " + info
+    return (idx, "unknown", "z3", "all", total, None, last_reason)
+
+
+def discharge_all(obligs, axioms, tier="quick", procs=None):
+    """Portfolio per obligation (every step sound, see discharge()), each in a fresh process-local z3 context,
+    farmed to a process pool."""
+    import multiprocessing as mp
+    budget = QUICK_MS if tier == "quick" else 6 * QUICK_MS
+    tasks = []
+    for i, ob in enumerate(obligs):
+        variants = []
+        lin = [a for a in ob.assumptions if not is_nonlinear(a)]
+        if len(lin) < len(ob.assumptions) and not is_nonlinear(ob.goal):
+            variants.append(("linear-subset", smt2_of(axioms, lin, ob.goal), 3000, False))
+        variants.append(("all", smt2_of(axioms, ob.assumptions, ob.goal), budget, True))
+        qf = [a for a in ob.assumptions if not has_quant(a)]
+        if len(qf) < len(ob.assumptions) and not has_quant(ob.goal):
+            variants.append(("quantifier-free-subset", smt2_of([], qf, ob.goal), 5000, False))
+        tasks.append((i, variants, budget / 1000.0))
+    procs = procs or min(16, os.cpu_count() or 4)
+    ctx = mp.get_context("fork")
+    with ctx.Pool(processes=procs) as pool:
+        for idx, result, backend, label, secs, model, reason in pool.imap_unordered(_work, tasks, chunksize=1):
+            ob = obligs[idx]
+            ob.result, ob.backend, ob.strategy, ob.seconds, ob.reason = result, backend, label, secs, reason
+            ob.model = model
+    return obligs
 
 
 def second_opinion(ob, axioms, timeout_s=60):
